@@ -22,6 +22,7 @@ from .values import (
     to_boolean,
     to_number,
     to_string,
+    js_pow,
     js_typeof,
 )
 from .errors import (
@@ -495,7 +496,7 @@ class VM:
         elif op == OpCode.POW:
             b = self.stack.pop()
             a = self.stack.pop()
-            self.stack.append(to_number(a) ** to_number(b))
+            self.stack.append(js_pow(to_number(a), to_number(b)))
 
         elif op == OpCode.NEG:
             a = self.stack.pop()
